@@ -95,10 +95,12 @@ def _translate(pattern):
                 stuff = pattern[i:j].replace("\\", "\\\\")
                 i = j + 1
                 if stuff[0] == "!":
-                    stuff = "^/" + stuff[1:]
+                    stuff = "^" + stuff[1:]
                 elif stuff[0] == "^":
                     stuff = "\\" + stuff
-                res.append("[%s]" % stuff)
+                # a bracket expression never matches the separator; a lookahead says so
+                # without touching the text of the set ("[!]x]", "[!-a]", "[+-9]")
+                res.append("(?!/)[%s]" % stuff)
         else:
             res.append(re.escape(c))
     return "".join(res)
